@@ -1,5 +1,9 @@
 import Tx3Proofs.C04
+import Tx3Proofs.C04Body
 #print axioms Tx3.selectOne_refs_nodup
 #print axioms Tx3.resolveQueries_inv
 #print axioms Tx3.C04_disjoint
 #print axioms Tx3.C04_every_block_bound
+#print axioms Tx3.C04_body_inputs_exact
+#print axioms Tx3.C04_body_no_duplicates
+#print axioms Tx3.C04_body_duplicates_if_shared
